@@ -24,6 +24,8 @@ func init() {
 			{ID: "C11.R5", Floor: 1, Run: c10r3, Text: "no-op exchange (= C10.R3): the sometimes-nil result of the mover is not dereferenced by the notifier"},
 			{ID: "C11.R6", Floor: 6, Run: c11r6, Text: "Q variants: every function that builds a batch query passes a batch list that was filled by the mover; the close function notifies for a batch list when a listener is installed, after releasing the lock"},
 			{ID: "C11.R8", Floor: 1, Run: c11r8, Text: "deferred events read the old table after the batch: no function on the retire path (free-list push, deactivate, reset) writes the table's identity fields (RelationTarget, RelationComponent, HasRelationComponent, Mask), so OldTarget/OldRelation of batch events stay truthful after the old table was retired"},
+			{ID: "C11.R9", Floor: 4, Run: batchParallelAppends, Text: "every recorded batch range keeps its own old table (= C03.R8): OldTarget / OldRelation of batch events are read from it"},
+			{ID: "C11.R10", Floor: 2, Run: constPrefilters, Text: "constant subscription pre-filters: only the two target setters (table in checker/rules_r3.go) test Subscriptions() against a constant mask before notifying, and the mask is event.TargetChanged; every other notification leaves filtering to subscribes() with the per-event types"},
 			{ID: "C11.R7", Floor: 1, Run: c12r5, Text: "freshness of notification inputs in loops (= C12.R5)"},
 		},
 	})
